@@ -6,6 +6,7 @@ import pool2
 import c13
 
 META = {
+    "thorough_extra": ["client-only", "tls"],
     "level": "other",
     "explanation": "Structure of the timeout layer, decided on all paths: (C19.1) the timer is created when the request is issued - Timeout::call builds TimeoutFuture::new(inner.call(req), error, "
                    "timeout) whose `timeout` field is tokio::time::sleep(d) with d deriving from the layer's duration, and no sleep is created inside poll; (C19.2) TimeoutFuture::poll polls "
